@@ -20,6 +20,7 @@ import (
 	"time"
 
 	sdkmath "cosmossdk.io/math"
+	"github.com/KiraCore/sekai/x/basket"
 	basketkeeper "github.com/KiraCore/sekai/x/basket/keeper"
 	baskettypes "github.com/KiraCore/sekai/x/basket/types"
 	sdk "github.com/cosmos/cosmos-sdk/types"
@@ -172,6 +173,13 @@ func (e *c11Env) observe(id uint64) {
 }
 
 func (e *c11Env) setTime(t int64) {
+	// a change of the block time is a block boundary: the module's EndBlocker runs first (it prunes, per basket, the
+	// limit history that fell out of the basket's CURRENT period — visible later only if the period is edited upwards)
+	if e.now != 0 && t != e.now {
+		basket.EndBlocker(e.ctx, e.k)
+		e.op("basket endblock", "ok")
+		e.r.Count("endblocker")
+	}
 	e.now = t
 	e.ctx = e.ctx.WithBlockTime(time.Unix(t, 0).UTC())
 	e.op(fmt.Sprintf("basket time %d", t), "ok")
